@@ -353,14 +353,14 @@ def run_trace(case, R):
                 if perms is not None and qref is not None:
                     qp = np.stack([qref[f, list(p)] for f, p in enumerate(perms)])
                     r = float((np.abs(np.asarray(qf) - qp) / qp).max())
-                    cond = float(1 / np.asarray(prev.cacg.covariance_eigenvalues).min())
+                    _l = np.asarray(prev.cacg.covariance_eigenvalues, dtype=float); cond = float((_l.max(-1) / _l.min(-1)).max())
                     R.check('C08.estep', r <= max(1e-8, 1e-14 * cond) * (1e4 if single else 1), f'estep/{kind}/aligned-quadratic-form', f'iteration {i}: quadratic forms are not permuted together with the posteriors (rel {r:.2e})', opts=case['opts'])
                 continue
             dv = float(np.abs(aff - ref).max())
             R.check('C08.estep', dv <= tol, f'estep/{kind}/posterior', f'iteration {i}: affiliation entering the M-step is not the Bayes posterior of the preceding model (dev {dv:.3e})', dev=dv, opts=case['opts'])
             if qref is not None:
                 r = float((np.abs(np.asarray(qf, dtype=float) - qref) / qref).max())
-                cond = float(1 / np.asarray(prev.cacg.covariance_eigenvalues).min())
+                _l = np.asarray(prev.cacg.covariance_eigenvalues, dtype=float); cond = float((_l.max(-1) / _l.min(-1)).max())
                 R.check('C08.estep', r <= max(1e-8, 1e-14 * cond) * (1e4 if single else 1), f'estep/{kind}/quadratic-form', f'iteration {i}: quadratic form is not z^H B^-1 z of the preceding model (rel {r:.2e})', dev=r, opts=case['opts'])
     if s.N > s.D:
         R.mark_nontrivial('trace', kind, case['opts'], s.K, s.D, case['lead'])
